@@ -65,10 +65,9 @@ func ParseTargetPattern(currentPackage string, pattern string) (TargetPattern, e
 		}
 	}
 
-	// Normalize the prefix by removing a trailing slash if present.
-	if len(prefix) > 0 && prefix[len(prefix)-1] == '/' {
-		prefix = prefix[:len(prefix)-1]
-	}
+	// Normalize the prefix by removing all trailing slashes, so that the printed
+	// pattern ("//" + prefix + ...) parses back to the same prefix.
+	prefix = strings.TrimRight(prefix, "/")
 	return TargetPattern{prefix: prefix, targetPattern: targetPattern, recursive: recursive}, nil
 }
 
@@ -153,7 +152,7 @@ func ParsePartialTargetPattern(currentPackage, pattern string) TargetPattern {
 
 	if len(prefix) > 0 {
 		if prefix[len(prefix)-1] == '/' {
-			prefix = prefix[:len(prefix)-1]
+			prefix = strings.TrimRight(prefix, "/")
 		} else if colonIndex <= 0 && !recursive {
 			// We are dealing with a partial package path, e.g. //foo
 			isPrefixPartial = true
